@@ -43,6 +43,13 @@ def run(repo, chk):
     chk.ob("R09.2", "overlay.proceed.__exit__:reset-on-every-way-out", ok_all, ex.where,
            "the token is reset on every path through __exit__, whatever ended the activation (return, exception, GeneratorExit on close/drop)"
            + ("" if ok_all else f" -- a path leaves __exit__ without resetting: {' -> '.join(path or [])}"))
+    from .proceed_shape import proceed_shape
+    P = proceed_shape(repo)
+    ok = len(P.pushes) == 1 and len(P.child_loops) == 1 and norm(P.pushes[0].args[0]) == f"({P.child_loops[0].target.id}, {P.acc})" and len(P.keeps) == 1 \
+        and norm(P.keeps[0].args[0]) == f"({P.sel}, {P.acc})"
+    chk.ob("R09.2", "overlay.HandlerCollection.proceed:inner-collection-holds-the-selectors-unchanged", ok, P.pr.where,
+           "the collection installed for an activation holds the caller's pending selectors and the matched level's children as they are (no altered copies): an instrumented generator that is entered while "
+           "suspended callers exist installs a collection with the same content for them, so advancing, closing or dropping it does not change which of the driver's calls match")
     from ..pairing import raising_before_release
     from ..callgraph import CallGraph
     early = raising_before_release(ex, f"ctxvar:{[c for c in ctxvars if 'current' in c][0]}", ctxvars, CallGraph(repo))
